@@ -124,6 +124,7 @@ FLOW = {
     'convert_math_attach': (0, 'node', []),
     'convert_math_frac': (0, 'node', []),
     'convert_math_root': (0, 'node', []),
+    'convert_math_delimited': (0, 'node', []),
     'convert_import_item_path': (0, 'child', ['.']),
     'convert_import_item_renamed': (0, 'child', []),
     'convert_field_access_plain': (0, 'child', ['.']),
